@@ -58,6 +58,8 @@ def two_dev(seeds, kinds, styles=(None,), max_dist_lines=None):
         for a, b in itertools.combinations(ops, 2):
             if a[1] == b[1] and a[2] == b[2]:
                 continue
+            if a[1] == b[1] and "J" in (a[0], b[0]):
+                continue  # a join composed with another edit of the same line is not guaranteed to preserve meaning (a comment may end up in front of the joined code)
             if max_dist_lines is not None and abs(a[1] - b[1]) > max_dist_lines:
                 continue
             for st in styles:
